@@ -261,6 +261,134 @@ impl StreamGen {
 
 pub struct C10 {
     pub mib: u64,
+    /// solver-log streams instead of the six streaming formats
+    pub log: bool,
+}
+
+impl C10 {
+    /// A solver log of `mib` MiB whose result (status + a short assignment) is tiny: the bytes are comment
+    /// lines, lines to be ignored and blank lines. 3 line mixes x 4 chunk sizes x 4 read sizes.
+    fn case_log(&mut self, idx: u64, rng: &mut Rng, rep: &mut Report) {
+        use std::io::Write;
+        let profile = idx % 3;
+        let chunk = [64usize, 4096, 16384, 65536][((idx / 3) % 4) as usize];
+        let read_size = match (idx / 12) % 4 {
+            0 => 1,
+            1 => 7,
+            2 => chunk,
+            _ => 1 + rng.usize(2 * chunk),
+        };
+        let target = self.mib << 20;
+        let ignore_unknown = profile != 0;
+        let mut emitted = 0u64;
+        let mut k = 0u64;
+        let mut tail_done = false;
+        let mut values = 0u64;
+        let refill = move |out: &mut Vec<u8>| -> bool {
+            if emitted == 0 {
+                out.extend_from_slice(b"c solver log\ns SATISFIABLE\n");
+            }
+            while out.len() + 80 < 4096 {
+                if emitted + out.len() as u64 >= target {
+                    if !tail_done {
+                        tail_done = true;
+                        out.extend_from_slice(b"v 7 -8 0\n");
+                    }
+                    emitted += out.len() as u64;
+                    return false;
+                }
+                k += 1;
+                let _ = match (profile, k % 7) {
+                    // strict mode: comments only
+                    (0, _) => writeln!(out, "c progress {} conflicts {} restarts", k, k / 3),
+                    // one long run of lines that are neither comments nor status nor values
+                    (1, 0) => writeln!(out),
+                    (1, _) => writeln!(out, "progress {} conflicts {} restarts", k, k / 3),
+                    // mixed: comments, ignored lines, blank lines and now and then a value line
+                    (_, 0) => writeln!(out, "c progress {}", k),
+                    (_, 1) => writeln!(out),
+                    (_, 2) if k % 70_000 == 2 && values < 40 => {
+                        values += 1;
+                        writeln!(out, "v {} -{}", 1 + values, 100 + values)
+                    }
+                    (_, _) => writeln!(out, "[{}] restarts {}", k, k / 3),
+                };
+            }
+            emitted += out.len() as u64;
+            true
+        };
+        let calls = Rc::new(Cell::new(0u64));
+        let src = GenSrc {
+            refill,
+            pending: Vec::with_capacity(8192),
+            pos: 0,
+            read_size,
+            delivered: 0,
+            done: false,
+            calls: calls.clone(),
+        };
+        let win = Window::open();
+        let (ok, err, nvals) = sut(|| {
+            let mut r = DeferredReader::from_read(src);
+            r.set_chunk_size(chunk);
+            let mut lr = LineReader::new(r);
+            let cfg = flussab_cnf::sat_solver_log::Config::default().ignore_unknown_lines(ignore_unknown);
+            match flussab_cnf::sat_solver_log::parse_log::<i32>(&mut lr, cfg) {
+                Ok(log) => (true, String::new(), log.assignment.len()),
+                Err(e) => (false, format!("{}", e), 0),
+            }
+        });
+        let peak = win.peak();
+        let max_item = 400usize; // the result: status + at most 83 literals; lines are < 60 bytes
+        let bound = 8 * chunk + 4 * max_item + (16 << 10);
+        rep.inc("streams");
+        rep.inc("log_streams");
+        rep.inc(&format!(
+            "log_profile:{}",
+            ["comment_lines_strict", "run_of_ignored_lines", "mixed_with_value_lines"][profile as usize]
+        ));
+        rep.count("bytes_streamed", target);
+        rep.count("read_calls", calls.get());
+        rep.max("peak_live_bytes", peak as u64);
+        if !ok {
+            rep.inc("harness_stream_rejected");
+            rep.extra.insert(
+                format!("stream_rejected_{}", rep.cur),
+                J::obj().set("format", J::s("solver log")).set("error", J::s(err)),
+            );
+            return;
+        }
+        if (target as usize) >= 100 * bound {
+            rep.inc("streams_100x_bound");
+        }
+        rep.nontrivial(H::new().u(77).u(profile).u(chunk as u64).u(read_size as u64).u(target).get());
+        rep.sample(|| {
+            J::obj()
+                .set("format", J::s("solver log"))
+                .set("profile", J::U(profile))
+                .set("chunk", J::u(chunk))
+                .set("read_size", J::u(read_size))
+                .set("bytes", J::U(target))
+                .set("assignment_literals", J::u(nvals))
+                .set("peak_live_bytes", J::u(peak))
+                .set("bound", J::u(bound))
+        });
+        if peak > bound {
+            rep.violation(
+                "Log:peak",
+                J::obj()
+                    .set("format", J::s("solver log"))
+                    .set("ignore_unknown_lines", J::B(ignore_unknown))
+                    .set("profile", J::U(profile))
+                    .set("chunk", J::u(chunk))
+                    .set("read_size", J::u(read_size))
+                    .set("bytes_streamed", J::U(target))
+                    .set("assignment_literals", J::u(nvals))
+                    .set("peak_live_bytes", J::u(peak))
+                    .set("bound_8chunk_4item_16k", J::u(bound)),
+            );
+        }
+    }
 }
 
 struct RunStats {
@@ -474,6 +602,9 @@ fn stream<F: FnMut(&mut Vec<u8>) -> bool>(
 
 impl Monitor for C10 {
     fn case(&mut self, idx: u64, rng: &mut Rng, rep: &mut Report) {
+        if self.log {
+            return self.case_log(idx, rng, rep);
+        }
         let fmt = FMTS[(idx % 6) as usize];
         let chunk = [64usize, 4096, 16384, 65536][((idx / 6) % 4) as usize];
         let read_size = match (idx / 24) % 4 {
